@@ -97,6 +97,8 @@ class Ctx:
             # the number of compiler-inserted assertions is a property of the build profile (counted for the
             # default profile); on the other configurations only require that the audit ran
             minimum = min(minimum, 1)
+        if os.environ.get("CVA_SHOW_FLOORS"):
+            print("FLOOR %s %s: %d (minimum %d)" % (self.pid, what, count, minimum))
         self.check(count >= minimum, "floor:%s" % what,
                    "rule matched %d instance(s) of %s, fewer than the %d confirmed by reading: "
                    "the mechanism the property is anchored in has gone or is no longer recognised"
